@@ -143,3 +143,25 @@ Definition blind_node (falsy : nat -> bool) (nd : node) : node :=
   | None => nd
   end.
 Definition blind (falsy : nat -> bool) (h : heap) : heap := map (blind_node falsy) h.
+
+(* copy_dependencies(other) puts the task mark of `other` on a configuration whose parameters have nothing to do
+   with that task.  `uncopy cp h`: the heap in which every node of `cp` (the nodes whose mark was copied) is
+   read as what it means - its own parameters, plus one more value that carries the copied mark.  The walk of
+   the unchanged tree is the walk on h (a mark stops the search, the parameters are not looked at); the walk
+   with fixes/C04-3.diff is the walk on `uncopy cp h`. *)
+Fixpoint index_of (x : nat) (l : list nat) : option nat :=
+  match l with
+  | [] => None
+  | y :: r => if Nat.eqb x y then Some 0 else option_map S (index_of x r)
+  end.
+Definition uncopy_node (cp : list nat) (base : nat) (i : nat) (nd : node) : node :=
+  match index_of i cp with
+  | Some p => {| n_fields := n_fields nd ++ [VRef (base + p)]; n_pre := n_pre nd; n_init := n_init nd; n_task := None;
+                 n_jobof := n_jobof nd; n_loaded := n_loaded nd; n_sub := n_sub nd |}
+  | None => nd
+  end.
+Definition mark_only (h : heap) (c : nat) : node :=
+  {| n_fields := []; n_pre := []; n_init := []; n_task := n_task (get h c); n_jobof := None; n_loaded := false;
+     n_sub := None |}.
+Definition uncopy (cp : list nat) (h : heap) : heap :=
+  map (fun p => uncopy_node cp (length h) (fst p) (snd p)) (combine (seq 0 (length h)) h) ++ map (mark_only h) cp.
